@@ -31,12 +31,17 @@ var typedPicks = []typedPick{
 }
 
 func typedView(n datamodel.Node) ref.Val {
-	tv, _ := ref.ObserveTyped(n)
+	v, _ := typedViewIncs(n)
+	return v
+}
+
+func typedViewIncs(n datamodel.Node) (ref.Val, []ref.Inc) {
+	tv, incs := ref.ObserveTyped(n)
 	if tn, ok := n.(schema.TypedNode); ok {
-		rv, _ := ref.ObserveTyped(tn.Representation())
-		return ref.List(tv, rv)
+		rv, rincs := ref.ObserveTyped(tn.Representation())
+		return ref.List(tv, rv), append(incs, rincs...)
 	}
-	return ref.List(tv)
+	return ref.List(tv), incs
 }
 
 func (w *world) trackTyped(name string, n datamodel.Node) {
